@@ -27,6 +27,11 @@ WORK = VERIF / ".work"
 EVID = VERIF / "evidence"
 REPLAYS = VERIF / "replays"
 KNOWN = VERIF / "known_findings.json"
+if str(REPO) != "/repo":
+    # a scratch tree (seeded change) is being checked: keep its evidence / replays apart from the real ones
+    _alt = WORK / "alt" / str(REPO).strip("/").replace("/", "_")
+    EVID = _alt / "evidence"
+    REPLAYS = _alt / "replays"
 TLA_JAR = "/opt/veriftools/tla/tla2tools.jar"
 TLA_CP = TLA_JAR + ":/opt/veriftools/tla/CommunityModules-deps.jar"
 PY = "/venv/bin/python"
@@ -352,14 +357,14 @@ class Ctx:
             "wall_s": round(time.time() - self.t0, 2),
             "violations": len(self.violations),
         }
-        EVID.mkdir(exist_ok=True)
+        EVID.mkdir(parents=True, exist_ok=True)
         (EVID / f"{self.pid}.json").write_text(json.dumps(ev, indent=1, default=_json_default) + "\n")
         for h in self.known_hits:
             print(f"KNOWN-FINDING: property={self.pid} {h['id']}: {h['what']}")
         rc = 0
         try:
             WORK.mkdir(exist_ok=True)
-            (WORK / f"{self.pid}.violations.json").write_text(json.dumps(self.violations, indent=1, default=_json_default) + "\n")
+            ((WORK if str(REPO) == "/repo" else EVID.parent) / f"{self.pid}.violations.json").write_text(json.dumps(self.violations, indent=1, default=_json_default) + "\n")
         except OSError:
             pass
         if self.violations:
